@@ -122,6 +122,7 @@ class Gen(object):
         self.stdlib_left = list(IMPORTS_STDLIB)
         rng.shuffle(self.stdlib_left)
         self.features = set()
+        self.force = None
         self.risky_left = 10 ** 6 if self.c01 else risky
         self.risky_p = 0.15 if self.c01 else 0.12
 
@@ -229,11 +230,17 @@ class Gen(object):
 
     def block(self, ind, scope, depth, in_loop=False, n=None):
         n = n or self.rng.choice([1, 1, 2, 2, 3, 4])
+        force = self.force if (self.force and self.force[1] == depth) else None
         made = 0
         for _ in range(n):
             if not self.budget() and made:
                 break
             self.stmt(ind, scope, depth, in_loop)
+            made += 1
+        if force:
+            # every direct block of an 'all paths bind it' statement ends by binding the variable
+            self.emit(ind, '%s = %s' % (force[0], self.expr(scope)))
+            scope.add(force[0])
             made += 1
         if not made:
             self.emit(ind, 'pass')
@@ -243,7 +250,7 @@ class Gen(object):
         rng = self.rng
         kinds = [('assign', 10), ('use', 5), ('tuple', 2), ('chained', 1), ('annotated', 1), ('walrus', 1), ('comp', 2)]
         if depth < self.max_depth and self.budget():
-            kinds += [('if', 6), ('for', 4), ('while', 2), ('try', 3), ('with', 2), ('def', 3), ('class', 1), ('lambda', 1)]
+            kinds += [('if', 6), ('for', 4), ('while', 2), ('try', 3), ('with', 2), ('def', 3), ('class', 1), ('lambda', 1), ('allpaths', 2)]
         kinds += [('import', 2)]
         if scope.kind == 'function':
             kinds += [('return', 1)]
@@ -356,7 +363,30 @@ class Gen(object):
         else:
             self.emit(ind, 'v(%s)' % e)
 
-    def s_if(self, ind, scope, depth, in_loop):
+    def s_allpaths(self, ind, scope, depth, in_loop):
+        """a compound statement every branch of which binds the same variable, which is read right after it
+        (joins must neither add phantom earlier definitions nor spurious undefined markers)"""
+        if self.force or not self.dec_ok(2):
+            return self.s_assign(ind, scope, depth, in_loop)
+        rng = self.rng
+        n = rng.choice(VARS)
+        if rng.random() < 0.5:
+            self.emit(ind, '%s = %s' % (n, self.expr(scope)))
+            scope.add(n)
+        self.force = (n, depth + 1)
+        try:
+            kind = rng.choice(['if', 'try', 'try', 'try'])
+            if kind == 'if':
+                self.s_if(ind, scope, depth, in_loop, force_else=True)
+            else:
+                self.s_try(ind, scope, depth, in_loop, force_finally=rng.random() < 0.6)
+        finally:
+            self.force = None
+        self.features.add('allpaths_' + kind)
+        if n in scope.visible_definite():
+            self.emit(ind, 'v(%s)' % n)
+
+    def s_if(self, ind, scope, depth, in_loop, force_else=False):
         if not self.dec_ok():
             return self.s_assign(ind, scope, depth, in_loop)
         self.decisions += 1
@@ -371,7 +401,7 @@ class Gen(object):
             outs.append(self.branch(scope, lambda: self.block(ind + 1, scope, depth + 1, in_loop)))
             self.features.add('elif')
             r = self.rng.random() * 0.9
-        if r < 0.6:
+        if r < 0.6 or force_else:
             self.emit(ind, 'else:')
             outs.append(self.branch(scope, lambda: self.block(ind + 1, scope, depth + 1, in_loop)))
             has_else = True
@@ -421,7 +451,7 @@ class Gen(object):
             self.block(ind + 1, scope, depth + 1, in_loop)
             self.features.add('while_else')
 
-    def s_try(self, ind, scope, depth, in_loop):
+    def s_try(self, ind, scope, depth, in_loop, force_finally=False):
         rng = self.rng
         if not self.dec_ok():
             return self.s_assign(ind, scope, depth, in_loop)
@@ -470,6 +500,13 @@ class Gen(object):
                 else:
                     self.emit(ind, h + ':')
                 self.block(ind + 1, scope, depth + 1, in_loop)
+                r = rng.random()
+                if scope.kind == 'function' and r < 0.15:
+                    self.emit(ind + 1, 'return %s' % self.expr(scope))      # the handler leaves the function
+                    self.features.add('handler_returns')
+                elif self.c01 and r < 0.3:
+                    self.emit(ind + 1, 'raise')                              # the handler re-raises
+                    self.features.add('handler_reraises')
             outs.append(self.branch(scope, hbody))          # a handler starts from the state before the try
         if rng.random() < 0.3:
             scope.definite = set(d_body)
@@ -478,10 +515,12 @@ class Gen(object):
             scope.definite = pre
             self.features.add('try_else')
         after = pre | set.intersection(d_body, *outs)
-        if rng.random() < 0.35:
+        if force_finally or rng.random() < (0.45 if self.c01 else 0.35):
             scope.definite = set(pre)
             self.emit(ind, 'finally:')
+            saved, self.force = self.force, None        # the finally block does not re-bind the 'all paths' variable
             d_fin = self.branch(scope, lambda: self.block(ind + 1, scope, depth + 1, in_loop))
+            self.force = saved
             after |= d_fin
             self.features.add('finally')
         scope.definite = after
